@@ -788,7 +788,7 @@ void gv::generate(const std::string& tier, uint64_t seed) {
   }
   // (6) the glue: accessors, capability masks, Phi, U, W = V + Phi
   const std::vector<double> lats = {90, -90, 0, 45}, lons = {0, 180, -180, 90, 270, 359.75, -540};
-  for (int i = 0, n = th ? 1500 : 110; i < n; ++i) {
+  for (int i = 0, n = th ? 1500 : 250; i < n; ++i) {
     int N = r.irange(0, 7) ? r.irange(2, 12) : r.irange(0, 2), M = r.irange(0, 3) ? N : r.irange(0, N);
     double dgm = r.irange(0, 3) ? r.pick(std::vector<double>{1e-5, -1e-5, -7.5e-10, 1e-3}) : 0.0;
     double fl = r.pick(std::vector<double>{1 / 298.257223563, 1 / 298.257222101, 0.001, 1 / 150.0}); int flmode = r.irange(0, 2);
@@ -797,7 +797,7 @@ void gv::generate(const std::string& tier, uint64_t seed) {
     run("gvacc", {std::to_string(r.next() % 1000000007ULL), std::to_string(r.irange(0, 3) ? 0 : 1), std::to_string(N), std::to_string(M), hx(dgm), hx(fl), std::to_string(flmode), hx(lat), hx(lon), hx(h), std::to_string(Nmax), std::to_string(Mmax)});
     stratum(std::string("gvacc") + (h == 0 ? "-h0" : "") + (flmode == 2 ? "-J2" : flmode == 1 ? "-fraction" : "") + (Nmax >= 0 || Mmax >= 0 ? "-trunc" : ""));
   }
-  for (int i = 0, n = th ? 3000 : 250; i < n; ++i) {
+  for (int i = 0, n = th ? 3000 : 400; i < n; ++i) {
     int nmod = r.irange(0, 1) ? 1 : r.irange(2, 4), ncon = r.irange(0, 2) == 0, N = r.irange(1, 10), M = r.irange(0, 3) ? N : r.irange(0, N);
     double t = r.range(1890, 2060), lat = r.irange(0, 7) ? r.range(-90, 90) : r.pick(lats), lon = r.irange(0, 7) ? r.range(-180, 180) : r.pick(lons), h = r.irange(0, 3) ? r.range(-1000, 850000) : 0.0;
     int Nmax = -1, Mmax = -1; if (r.irange(0, 3) == 0) { Nmax = r.irange(0, N + 1); Mmax = r.irange(0, 2) ? -1 : r.irange(0, Nmax); }
@@ -814,7 +814,7 @@ void gv::generate(const std::string& tier, uint64_t seed) {
     run("fcomp", {hx(b[0]), hx(b[1]), hx(b[2]), hx(b[3]), hx(b[4]), hx(b[5])}); stratum("fcomp-" + std::to_string(k));
   }
   // the normal zonal terms subtracted by GravityModel
-  for (int i = 0, n = th ? 3000 : 250; i < n; ++i) {
+  for (int i = 0, n = th ? 3000 : 400; i < n; ++i) {
     int N = r.irange(0, 9) ? r.irange(2, 26) : r.irange(0, 2), M = r.irange(0, 3) ? std::min(N, 4) : r.irange(0, std::min(N, 6));
     double dgm = r.irange(0, 3) ? r.pick(std::vector<double>{1e-5, -1e-5, -7.5e-10, 1e-3}) : 0.0, fl = r.pick(std::vector<double>{1 / 298.257223563, 1 / 298.257222101, 0.001, 1 / 150.0, 0.0, -0.002});
     int Nmax = r.irange(0, 3) ? -1 : r.irange(0, N + 1); int norm = r.irange(0, 1);
@@ -839,7 +839,7 @@ void gv::generate(const std::string& tier, uint64_t seed) {
     run("rdco", {std::to_string(N0), std::to_string(M0), std::to_string(Nq), std::to_string(Mq), std::to_string(tr)}); stratum(tr ? "rdco-truncate" : "rdco-full");
   }
   // the simple constructors and the accessors of the harmonic classes
-  for (int i = 0, n = th ? 6000 : 500; i < n; ++i) {
+  for (int i = 0, n = th ? 6000 : 800; i < n; ++i) {
     int L = r.irange(1, 3), N = r.irange(0, 9) ? r.irange(0, 12) : -1, N1 = r.irange(0, 7) ? r.irange(-1, std::max(N, -1)) : N + 1, N2 = r.irange(0, 7) ? r.irange(-1, std::max(N, -1)) : N + r.irange(1, 3);
     int extra = r.irange(0, 5) == 0 ? r.irange(1, 5) : (r.irange(0, 7) == 0 ? -r.irange(1, 2) : 0);
     double a = r.pick(std::vector<double>{1.0, 6378137.0}), x, y, z; point(r, a, r.irange(0, 6), x, y, z);
@@ -848,12 +848,12 @@ void gv::generate(const std::string& tier, uint64_t seed) {
     stratum("shctor-L" + std::to_string(L) + (extra > 0 ? "-longer" : extra < 0 ? "-short" : "") + ((L >= 2 && N1 > N) || (L == 3 && N2 > N) ? "-N1>N" : ""));
   }
   // the static root table
-  for (int i = 0, n = th ? 40 : 5; i < n; ++i) {
+  for (int i = 0, n = th ? 40 : 8; i < n; ++i) {
     int Nb = r.irange(8, th ? 120 : 60), Ns = r.irange(0, Nb - 1);
     run("roots", {std::to_string(r.next() % 1000003ULL), std::to_string(r.irange(0, 1)), std::to_string(Ns), std::to_string(Nb)}); stratum("roots");
   }
   // (7) tools/Gravity and tools/MagneticField
-  for (int i = 0, n = th ? 1200 : 90; i < n; ++i) {
+  for (int i = 0, n = th ? 1200 : 200; i < n; ++i) {
     int N = r.irange(2, 10), M = r.irange(0, 3) ? N : r.irange(0, N), mode = r.irange(0, 3), prec = r.irange(0, 2) ? -1 : r.irange(0, 12), flags = (r.irange(0, 3) == 0) | (r.irange(0, 3) == 0) << 1 | (r.irange(0, 3) == 0) << 2;
     double dgm = r.coin() ? 1e-5 : 0.0, lat = r.irange(0, 7) ? r.range(-90, 90) : r.pick(lats), h = r.coin() ? r.range(-5000, 400000) : 0.0;
     int Nmax = r.irange(0, 3) ? -1 : r.irange(0, N + 1), Mmax = Nmax >= 0 && r.coin() ? r.irange(0, Nmax) : -1;
@@ -861,7 +861,7 @@ void gv::generate(const std::string& tier, uint64_t seed) {
                      std::to_string(flags), std::to_string(r.irange(0, 7) ? r.irange(1, 6) : 0)});
     stratum(std::string("gravtool-") + "GDAH"[mode] + (prec >= 0 ? "-p" : ""));
   }
-  for (int i = 0, n = th ? 1200 : 90; i < n; ++i) {
+  for (int i = 0, n = th ? 1200 : 200; i < n; ++i) {
     int nmod = r.irange(0, 1) ? 1 : r.irange(2, 3), ncon = r.irange(0, 2) == 0, N = r.irange(1, 8), M = r.irange(0, 3) ? N : r.irange(0, N), tmode = r.irange(0, 2), prec = r.irange(0, 2) ? 1 : r.irange(0, 10);
     int flags = (r.irange(0, 3) == 0) | (r.irange(0, 2) == 0) << 1 | (r.irange(0, 3) == 0) << 2 | (r.irange(0, 2) == 0) << 3;
     double span = nmod * 2.5, time = 2020 + (r.irange(0, 5) ? r.range(-0.1, 1.1) * span : r.pick(std::vector<double>{-3.0, span + 3, -60.0, span + 60, 0.0, span}));
